@@ -267,7 +267,9 @@ fn run_exposed(a: &Args) -> Report {
         if global {
             b = b.set_buckets(&[99.0, 1000.0]).unwrap();
         }
-        let rec = b.build_recorder();
+        let (clock, mock) = quanta::Clock::mock();
+        mock.increment(Duration::from_secs(1000));
+        let rec = b.verif_build_with_clock(clock.clone());
         let handle = rec.handle();
         let unit = if r.chance(2, 3) { Some(*r.pick(UNITS)) } else { None };
         let described = r.chance(3, 4);
@@ -276,14 +278,24 @@ fn run_exposed(a: &Args) -> Report {
             rec.describe_histogram(KeyName::from(name.clone()), unit, SharedString::from("d"));
         }
         let hst = rec.register_histogram(&Key::from_name(name.clone()), &MD);
-        let samples = [0.5, 5.0, 50.0, 5000.0];
-        for v in samples {
-            hst.record(v);
+        // the last sample is beyond every finite bound; sometimes it is infinite (a summary's sketch cannot hold it)
+        let samples = [0.5, 5.0, 50.0, if r.chance(1, 3) { f64::INFINITY } else { 5000.0 }];
+        // Instant::now() inside the exporter (sample stamps, the window's "now") follows the mock clock on this thread
+        quanta::with_clock(&clock, || {
+            for v in samples {
+                hst.record(v);
+            }
+        });
+        // sometimes the rendering happens after every sample has left the summary's rolling window (default 3 x 20 s)
+        let aged = r.chance(1, 2);
+        if aged {
+            let _ = quanta::with_clock(&clock, || handle.render()); // samples are pulled into the distribution at their recording time
+            mock.increment(Duration::from_secs(*r.pick(&[61u64, 3600])));
         }
         if described && !before {
             rec.describe_histogram(KeyName::from(name.clone()), unit, SharedString::from("d"));
         }
-        let text = handle.render();
+        let text = quanta::with_clock(&clock, || handle.render());
         // reference
         // patterns are sanitised as metric names by the builder (a leading digit becomes '_')
         let matches = |c: u8, p: &str| {
@@ -313,7 +325,7 @@ fn run_exposed(a: &Args) -> Report {
         }
         rep.case(mix(mix(h, global as u64), fnv(fam_name.as_bytes())), !list.is_empty() && suffix.is_some());
         let ctx = jo! {"name" => name.clone(), "unit_suffix_enabled" => unit_on, "unit" => format!("{:?}", unit), "described" => described,
-        "overrides" => J::A(list.iter().map(|(c, p, t)| J::s(format!("{}({:?}) -> [{}, 1000]", ["Full", "Prefix", "Suffix"][*c as usize], p, t))).collect()), "global_buckets" => global, "output" => text.chars().take(500).collect::<String>()};
+        "overrides" => J::A(list.iter().map(|(c, p, t)| J::s(format!("{}({:?}) -> [{}, 1000]", ["Full", "Prefix", "Suffix"][*c as usize], p, t))).collect()), "global_buckets" => global, "samples" => format!("{:?}", samples), "rendered_after_window_expired" => aged, "output" => text.chars().take(500).collect::<String>()};
         let fams = match promparse::parse(&text).map_err(|e| format!("line {}: {}", e.line_no, e.msg)).and_then(|l| promparse::families(&l)) {
             Ok(f) => f,
             Err(e) => {
@@ -333,6 +345,14 @@ fn run_exposed(a: &Args) -> Report {
         let has_quant = fam.samples.iter().any(|s| s.1.iter().any(|(k, _)| k == "quantile"));
         if fam.ty != exp_ty || has_bucket != exp_hist || has_quant == exp_hist {
             rep.violation("C15:wrong-exposed-type", jo! {"what" => "a name is exposed as histogram/summary contrary to whether buckets apply to it (TYPE line and series shape must both agree)", "expected" => exp_ty, "type_line" => fam.ty.clone(), "has_bucket_series" => has_bucket, "has_quantile_series" => has_quant, "case" => ctx.clone()});
+            continue;
+        }
+        // _sum and _count cover every sample ever recorded, for histograms and summaries alike, whatever the window holds
+        let cnt = fam.samples.iter().find(|s| s.0 == format!("{}_count", fam_name)).map(|s| s.2);
+        let sum = fam.samples.iter().find(|s| s.0 == format!("{}_sum", fam_name)).map(|s| s.2);
+        let exp_sum: f64 = samples.iter().sum();
+        if cnt != Some(4.0) || sum != Some(exp_sum) {
+            rep.violation(if exp_hist { "C15:histogram-sum-count-not-covering-all" } else { "C15:summary-sum-count-not-covering-all" }, jo! {"what" => "the exposed _sum/_count do not cover all samples recorded", "count" => format!("{:?}", cnt), "expected_count" => 4, "sum" => format!("{:?}", sum), "expected_sum" => format!("{:?}", exp_sum), "rendered_after_window_expired" => aged, "case" => ctx.clone()});
             continue;
         }
         if exp_hist {
